@@ -581,7 +581,7 @@ Section Flush.
     let W' := apply_dops (snd (flush fk scale id os p)) W in
     pool_inv fk (fst (flush fk scale id os p)) (mkSpec dbs' []) W' /\
     strict_prefixes (Pid orc) (snd (flush fk scale id os p)) W /\
-    agrees fk (Some (mkRec k0 id dbs')) W'.
+    agrees_all fk (mkRec k0 id dbs') W'.
   Proof.
     intros I Ag. destruct I as [A B C R K Q]. unfold flush.
     set (ns1 := arrange (nth_order os 0) (dedup (p_queued p))).
@@ -797,12 +797,11 @@ Section Flush.
       + apply all_prefixes_split in P3s. destruct P3s as [_ [Q1 _]]. exact Q1.
     - (* the final world agrees with the new record *)
       intros n c Gc. rewrite G4 in Gc. destruct (pget n wr1) as [x|] eqn:G; [|discriminate].
-      inversion Gc; subst c. clear Gc. right.
+      inversion Gc; subst c. clear Gc.
       pose proof G as G'. apply Wr1 in G'. destruct G' as [Gp Hn1].
       destruct (wget n (sp_dbs sp)) as [s0|] eqn:Es; [|apply C in Es; congruence].
-      exists (mkRec k0 id (with_marks fk id (remove_all (sp_doomed sp) (sp_dbs sp)))),
-             (dput fk (mark_of CLEAN id) s0).
-      split; [reflexivity|]. cbn [r_id r_snap]. split; [apply dget_dput_eq|]. split.
+      exists (dput fk (mark_of CLEAN id) s0).
+      cbn [r_id r_snap]. split; [apply dget_dput_eq|]. split.
       + rewrite wget_with_marks, wget_remove_all.
         assert (En : nmem n (sp_doomed sp) = false) by (apply nmem_false; rewrite <- In1; auto).
         rewrite En, Es. reflexivity.
@@ -818,6 +817,11 @@ Qed.
 Lemma firstn_app_ge {A} (a b : list A) j :
   (length a <= j)%nat -> firstn j (a ++ b) = a ++ firstn (j - length a) b.
 Proof. intros H. rewrite firstn_app. rewrite firstn_all2; auto. Qed.
+
+Lemma crash_app_le log ops k : (k <= length log)%nat -> crash (log ++ ops) k = crash log k.
+Proof. intros H. unfold crash. rewrite firstn_app_le; auto. Qed.
+Lemma crash_all log : crash log (length log) = apply_dops log [].
+Proof. unfold crash. rewrite firstn_all. reflexivity. Qed.
 
 Section Run.
   Variable fk : bytes.
@@ -857,11 +861,12 @@ Section Run.
     (exists orc, (forall rc, orc = Some rc -> In rc (rs_recs s)) /\
                  agrees fk orc (apply_dops (rs_log s) [])) /\
     (forall rc, In rc (rs_recs s) -> (r_pos rc <= length (rs_log s))%nat) /\
-    (forall j, safe fk (rs_recs s) j (crash (rs_log s) j)).
+    (forall j, safe fk (rs_recs s) j (crash (rs_log s) j)) /\
+    (forall rc, In rc (rs_recs s) -> agrees_all fk rc (crash (rs_log s) (r_pos rc))).
 
   Lemma run_inv_init : run_inv run_init.
   Proof.
-    unfold run_inv, run_init; cbn. split; [|split; [|split]].
+    unfold run_inv, run_init; cbn. split; [|split; [|split; [|split]]].
     - constructor; cbn; auto.
       + constructor.
       + intros n. split; [intros H; contradiction|intros [x [H _]]; discriminate].
@@ -873,6 +878,7 @@ Section Run.
     - intros j. unfold crash. rewrite firstn_nil. cbn. split.
       + intros n c H; discriminate.
       + intros m [n [c H]]; discriminate.
+    - intros rc [].
   Qed.
 
   (* user operations that perform no durable operation and leave the records alone *)
@@ -880,7 +886,7 @@ Section Run.
     run_inv s -> pool_inv fk p' sp' (apply_dops (rs_log s) []) ->
     run_inv (mkRun p' sp' (rs_log s ++ []) (rs_recs s)).
   Proof.
-    intros [I [Ho [Hp Hs]]] I'. unfold run_inv; cbn. rewrite app_nil_r. auto.
+    intros [I [Ho [Hp [Hs Hl]]]] I'. unfold run_inv; cbn. rewrite app_nil_r. auto.
   Qed.
 
   Lemma under_inv p sp W n x :
@@ -912,7 +918,7 @@ Section Run.
 
   Lemma run_step_inv s o : run_inv s -> hop_avoids fk o = true -> run_inv (run_step fk scale s o).
   Proof.
-    intros Inv Ha. pose proof Inv as [I [[orc [Ho Hag]] [Hp Hs]]].
+    intros Inv Ha. pose proof Inv as [I [[orc [Ho Hag]] [Hp [Hs Hl]]]].
     unfold run_step. destruct o as [n|n|n k v|n k|n ws|n|id os]; cbn [pool_step spec_step].
     - (* HOpen *)
       destruct (get_db_inv fk _ _ _ n I) as [I1 _]. apply (run_inv_quiet s _ _ Inv I1).
@@ -922,7 +928,8 @@ Section Run.
       destruct (w_inited x) eqn:Ei.
       + apply (run_inv_quiet s _ _ Inv I1).
       + unfold run_inv; cbn [rs_pool rs_spec rs_log rs_recs].
-        split; [|split; [|split]].
+        split; [|split; [|split; [|split]]].
+        5:{ intros rc Hr. rewrite crash_app_le; auto. }
         * rewrite apply_dops_app. apply under_inv; auto.
         * exists orc. split; auto. rewrite apply_dops_app. apply agrees_open; auto.
         * intros rc Hr. rewrite app_length. specialize (Hp _ Hr). lia.
@@ -961,10 +968,13 @@ Section Run.
       destruct (flush fk scale id os (rs_pool s)) as [p' ops] eqn:Ef. cbn [fst snd] in *.
       unfold run_inv; cbn [rs_pool rs_spec rs_log rs_recs].
       set (rc' := mkRec (length log') id (with_marks fk id (remove_all (sp_doomed (rs_spec s)) (sp_dbs (rs_spec s))))) in *.
-      split; [|split; [|split]].
+      split; [|split; [|split; [|split]]].
+      5:{ intros rc Hr. apply in_app_iff in Hr. destruct Hr as [Hr|[<-|[]]].
+          - rewrite crash_app_le; auto.
+          - cbn [r_pos]. unfold log'. rewrite crash_all, apply_dops_app. exact Hag'. }
       + rewrite apply_dops_app. exact I'.
       + exists (Some rc'). split; [intros rc E; inversion E; subst; apply in_app_iff; right; left; auto|].
-        rewrite apply_dops_app. exact Hag'.
+        rewrite apply_dops_app. apply agrees_all_agrees. exact Hag'.
       + intros rc Hr. apply in_app_iff in Hr. destruct Hr as [Hr|[<-|[]]].
         * specialize (Hp _ Hr). unfold log'. rewrite app_length. lia.
         * cbn. unfold log'. lia.
@@ -974,7 +984,7 @@ Section Run.
         * intros rc E. split; auto. all: try (apply Hp; auto).
         * exact Hst.
         * intros rc E. inversion E; subst. split; [apply in_app_iff; right; left; auto|]. cbn. unfold log'. lia.
-        * rewrite apply_dops_app. exact Hag'.
+        * rewrite apply_dops_app. apply agrees_all_agrees. exact Hag'.
   Qed.
 
   Lemma run_pool_inv h : history_avoids fk h = true -> run_inv (run_pool fk scale h).
@@ -990,7 +1000,30 @@ Section Run.
     lists_world l (crash (rs_log (run_pool fk scale h)) k) ->
     crash_consistent fk (rs_recs (run_pool fk scale h)) k (crash (rs_log (run_pool fk scale h)) k) l.
   Proof.
-    intros Ha L. destruct (run_pool_inv h Ha) as [_ [_ [_ Hs]]].
+    intros Ha L. destruct (run_pool_inv h Ha) as [_ [_ [_ [Hs _]]]].
     apply safe_consistent; auto.
+  Qed.
+
+  Theorem pool_crash_consistent_expected h k l f m :
+    history_avoids fk h = true ->
+    lists_world l (crash (rs_log (run_pool fk scale h)) k) -> l <> [] ->
+    check_loop fk l (Some f) false = COk (Some m) ->
+    m = f /\
+    exists rc, In rc (rs_recs (run_pool fk scale h)) /\ (r_pos rc <= k)%nat /\ m = mark_of CLEAN (r_id rc) /\
+      forall n c, wget n (crash (rs_log (run_pool fk scale h)) k) = Some c ->
+        match wget n (r_snap rc) with Some s => db_eq c s | None => db_empty c end.
+  Proof.
+    intros Ha L Hne E. destruct (run_pool_inv h Ha) as [_ [_ [_ [Hs _]]]].
+    eapply safe_consistent_expected; eauto.
+  Qed.
+
+  (* the other direction: right after a completed flush the recovery reports exactly that flush *)
+  Theorem pool_flush_reported h rc l :
+    history_avoids fk h = true -> In rc (rs_recs (run_pool fk scale h)) ->
+    lists_world l (crash (rs_log (run_pool fk scale h)) (r_pos rc)) -> l <> [] ->
+    check_synced fk l = COk (Some (mark_of CLEAN (r_id rc))).
+  Proof.
+    intros Ha Hr L Hne. destruct (run_pool_inv h Ha) as [_ [_ [_ [_ Hl]]]].
+    eapply agrees_all_verdict; eauto.
   Qed.
 End Run.
